@@ -3,7 +3,8 @@ SPEC = {
     "level": "proof",
     "lean_modules": ["PallasVerif.Props.C11"],
     "required_theorems": ["verify_sign_generic", "verify_sign_standard", "verify_sign_extended", "check_structure_iff",
-                          "clamp_satisfies", "from_bytes_accepts_iff"],
+                          "check_structure_scalar", "clamp_satisfies", "from_bytes_accepts_iff", "verify_rejects_allzero",
+                          "verifyRfc_rejects_noncanonical"],
     "streams": [{"name": "ed25519", "quick": 96, "thorough": 1600}],
     "rule": "a case = one random 32-byte secret key (incl. all-zero / all-ff), a message of 0..1024 bytes (boundary lengths of the SHA-512 "
             "padding included), its public key, signature and verification, 6 (thorough 24) single-bit tamperings of message / key / signature, "
@@ -25,6 +26,7 @@ SPEC = {
         "SecretKey::new / SecretKeyExtended::new (RNG-driven constructors) are not driven; the bit tweaks of the latter are clamp_satisfies on the model",
         "memory scrubbing (memsec) is out of scope of C11",
     ],
-    "explanation": "self-test: check_structure without the 0b0100_0000 test -> VIOLATION (clamp-check); SecretKeyExtended::sign using bytes "
-                   "32..64 swapped -> VIOLATION; harmless: reorder the three conjuncts of check_structure -> quiet.",
+    "explanation": "self-tests run on a scratch edit of the pallas worktree (reverted afterwards): check_structure without the 0b0100_0000 "
+                   "test -> exit 1, VIOLATION clamp-check bits=000/00 (+ extended key / signature differ from the reference); harmless: the three "
+                   "conjuncts of check_structure reordered and `== 0b0100_0000` written as `!= 0` -> exit 0, only the two KNOWN-FINDING lines.",
 }
